@@ -127,6 +127,16 @@ func (s *State) EDS(ns, name string) *v1.ExtendedDaemonSet {
 	return nil
 }
 
+// Has reports whether an object of the kind exists.
+func (s *State) Has(kind, ns, name string) bool {
+	for _, o := range s.Objs {
+		if o.Kind == kind && o.O.GetNamespace() == ns && o.O.GetName() == name {
+			return true
+		}
+	}
+	return false
+}
+
 func (s *State) ERS(ns, name string) *v1.ExtendedDaemonSetReplicaSet {
 	for _, e := range s.ERSs() {
 		if e.Namespace == ns && e.Name == name {
